@@ -518,6 +518,8 @@ type cacheMon struct {
 	forced   bool
 	closed   bool
 	delCalls map[int]int
+	delTags  []int
+	delWhat  map[int]string
 }
 
 func (v *cval) Release() {
@@ -535,7 +537,7 @@ func runCache(c *Case, out *RunOut, viol func(oracle, finger, detail string)) {
 	cc := c.Comp
 	lru := cache.NewLRU(cc.Cap)
 	ch := cache.NewCache(lru)
-	mon := &cacheMon{out: out, viol: viol, live: map[[2]uint64]*cval{}, delCalls: map[int]int{}}
+	mon := &cacheMon{out: out, viol: viol, live: map[[2]uint64]*cval{}, delCalls: map[int]int{}, delWhat: map[int]string{}}
 	var all []*cval
 	active := 0
 	var wg simrt.WaitGroup
@@ -631,6 +633,8 @@ func runCache(c *Case, out *RunOut, viol func(oracle, finger, detail string)) {
 				}
 				mon.nextID++
 				tag := mon.nextID
+				mon.delTags = append(mon.delTags, tag)
+				mon.delWhat[tag] = fmt.Sprintf("(%d,%d)", op.NS, op.N)
 				ch.Delete(op.NS, op.N, func() {
 					mon.delCalls[tag]++
 					if mon.delCalls[tag] > 1 {
@@ -707,6 +711,13 @@ func runCache(c *Case, out *RunOut, viol func(oracle, finger, detail string)) {
 		}
 	}
 	if !mon.closed {
+		// with no handle outstanding every deletion callback has run, once
+		for _, tag := range mon.delTags {
+			if mon.delCalls[tag] != 1 {
+				viol("cache", "cache:delfunc-never", fmt.Sprintf("deletion callback for %s ran %d times although every handle has been released", mon.delWhat[tag], mon.delCalls[tag]))
+				return
+			}
+		}
 		// everything is released: what is retained is retained by the policy
 		if ch.Size() > ch.Capacity() {
 			viol("cache", "cache:over-capacity", fmt.Sprintf("with no handle outstanding the cache retains %d bytes, capacity is %d", ch.Size(), ch.Capacity()))
